@@ -698,7 +698,7 @@ func (s *TreeShapeListener) ExitField(ctx *parser.FieldContext) {
 		name := s.fieldname[len(s.fieldname)-1]
 		itemType := s.typemap[name]
 		if ctx.Inplace_tuple() != nil {
-			name = ctx.Name_str().GetText()
+			name = MustUnescape(ctx.Name_str().GetText())
 			itemType = s.typemap[name]
 		}
 		if itemType == nil {
